@@ -89,6 +89,13 @@ func avroTypesOf(P *Program) map[string]map[string]bool {
 		sp := "*(&" + root.Schema.Name() + "->Type)"
 		for _, p := range root.Paths {
 			ret := P.classifyReturn(p)
+			if ret.Codec != nil {
+				// the dispatcher builds the codec itself (a builder inlined into it)
+				if st, exact, _ := p.State.strOf(sp); exact {
+					add(typeKey(ret.Codec), st)
+				}
+				continue
+			}
 			if ret.Delegate == nil || ret.Dynamic {
 				continue
 			}
@@ -618,16 +625,29 @@ func ruleWALenCnt(c *Ctx) {
 		fn := ct.M["Write"]
 		key := ct.Name + ".Write/count"
 		var ml, mi *ssa.Call
+		var iterated ssa.Value // the map handed to the runtime's iterator
 		for _, cs := range callsIn(fn) {
 			if cs.Static != nil && cs.Static.Name() == "maplen" {
 				ml = cs.Value()
 			}
-			if cs.Static != nil && cs.Static.Name() == "mapiterinit" {
-				mi = cs.Value()
+			if cs.Static != nil && cs.Static.Name() == "mapiterinit" && cs.Value() != nil {
+				mi, iterated = cs.Value(), cs.Common.Args[1]
+			}
+			// a wrapper (a method of the iterator type) that starts the iteration on one of its parameters
+			if cs.Static != nil && P.isModuleFunc(cs.Static) && cs.Static.Blocks != nil && cs.Value() != nil {
+				for _, ics := range callsIn(cs.Static) {
+					if ics.Static != nil && ics.Static.Name() == "mapiterinit" && isLinknameStub(ics.Static) {
+						for j, prm := range cs.Static.Params {
+							if ics.Common.Args[1] == ssa.Value(prm) && j < len(cs.Common.Args) {
+								mi, iterated = cs.Value(), cs.Common.Args[j]
+							}
+						}
+					}
+				}
 			}
 		}
 		ok := false
-		if ml != nil && mi != nil && ml.Call.Args[0] == mi.Call.Args[1] {
+		if ml != nil && mi != nil && ml.Call.Args[0] == iterated {
 			for _, cs := range callsIn(fn) {
 				if cs.Static != nil && qualNameShort(cs.Static) == "(*WriteBuf).Varint" && stripConv(cs.Common.Args[1]) == ssa.Value(ml) && dominatesInstr(cs.Instr, mi) {
 					ok = true
@@ -1306,7 +1326,7 @@ func selectorByFold(P *Program, ct *CodecType, fn *ssa.Function) (problems []str
 	}
 	nOmit, nVal := 0, 0
 	for nn := int64(0); nn <= 1; nn++ {
-		var recv cpVal = cpStructOf(ct.T, map[string]cpVal{nnName: cpInt{nn}, subName: cpUnk{ID: "sub"}})
+		var recv cpVal = cpStructUnknownExcept(ct.T, map[string]cpVal{nnName: cpInt{nn}, subName: cpUnk{ID: "sub"}})
 		if _, isPtr := fn.Params[0].Type().Underlying().(*types.Pointer); isPtr {
 			recv = cpPtrTo(recv, ct.T)
 		}
